@@ -177,7 +177,11 @@ func Mutate(r *Rand, doc *GDoc) *Mutation {
 				continue
 			}
 			body, end := lineBody(ls[i])
-			ls[i] = body + Pick(r, []string{" foo", " (8h!) x", " 1h", "\tbar", " (8h!)(8h!)"}) + end
+			extra := Pick(r, []string{" foo", " (8h!) x", " 1h", "\tbar", " (8h!)(8h!)"})
+			if r.P(1, 3) { // very long line: the faulty text lies far right of column 80
+				extra = strings.Repeat(Pick(r, []string{" ", " ", "\t"}), 60+r.Intn(200)) + strings.TrimLeft(extra, " \t") + strings.Repeat("x", r.Intn(120))
+			}
+			ls[i] = body + extra + end
 			if strings.Contains(body, "(") && strings.HasSuffix(ls[i], "(8h!) x"+end) {
 				// "… (8h!) (8h!) x": still extra text; fine
 			}
